@@ -7,6 +7,15 @@ ENGINES = [
 NOT_APPLICABLE = {}
 _NOTE = 'Trusted base: compiler + sanitizer runtimes, the engine in harness/engine.h, and the independent reference oracle named in the technique (self-tested at every start). Verdict is "held on everything explored", not absence.'
 TEXT = {
+ 'C01': dict(engine='pbt', design_ref='DESIGN.md 5/C01',
+   technique='property-based round-trip testing over typed models (save -> load -> deep equality, load-save-load fixed point)',
+   level_text='~3*10^4 generated (type, value, archive, position, configuration) round trips per quick run over 87 model types instantiating the library own serializers, under ASan/UBSan: the loaded value must equal the saved one bit for bit, neighbouring members must be intact, re-saving must be a fixed point (byte-identical for MsgPack); a save may only fail with an exception. Exploration: the value space is sampled with boundary-biased generators.',
+   level_note=_NOTE + ' Five recorded findings narrow the XML/CSV/JSON domains; each has a witness run on every check.'),
+ 'C18': dict(engine='pbt', design_ref='DESIGN.md 5/C18',
+   technique='metamorphic property-based testing: load(doc, into=populated B) == load(doc, into=fresh) == saved value; MapLoadMode model',
+   level_text='~2.5*10^4 generated (type, saved value A, prior target value B, archive, configuration) cases per quick run over all std containers, optionals, smart pointers, strings and nested combinations; plus a model of the documented MapLoadMode semantics (OnlyExistKeys never adds, UpdateKeys never removes) checked on generated key sets.',
+   level_note=_NOTE),
+
  'C04': dict(engine='sweep+pbt', design_ref='DESIGN.md 5/C04',
    technique='exhaustive sweep + property-based testing vs exact numeric reference model, differential over source/target type pairs and archive carriers',
    level_text='All 8/16-bit source values are converted into 11 target types and compared with an exact model; ~2*10^5 generated (source type, boundary/random value, target type, archive, position, policies, memory/stream) cases per quick run save the value with the library (MsgPack also with an independent encoder choosing any legal format), load it into the target type and require: exact value, or the documented report (Overflow / MismatchedTypes exception, or skip with the target untouched and the Required validator firing) - never a truncated, wrapped or sign-changed value; neighbours must stay intact.',
